@@ -487,6 +487,9 @@ class eval_abs(object):
 
     def eval_op_lshift(self, args, op_size, cast_int):
         r = args[1]#&0x1F
+        if r >= op_size:
+            # every bit is shifted out (do not build the huge intermediate)
+            return 0
         ret_value = ((args[0] &mymaxuint[op_size])<<r)
         return ret_value
 
